@@ -1,6 +1,7 @@
 import FqModel.Proto
 import FqModel.Dump
 import FqModel.C10Json
+import FqModel.C10Float
 import FqModel.Ansi
 /-!
   driver for C10.  Ops (observation after TAB; line feeds of the observed text are U+001E):
@@ -15,6 +16,7 @@ import FqModel.Ansi
   dump   k=… lb= ab= sb= db= c= vr= L= s= n= wo= root=<hex>     rows printed by d/dv/hd for ONE value
   tree   lb= ab= L= root=<hex>                  rows of a whole-tree dump (one root buffer): cell truth only
   json   <mode c|i|t> <json text>               what fq prints for the value
+  jsonf  <src> <float64 bits hex> <path>        number token(s) fq printed for that float, joined by ','
 -/
 open FqModel FqModel.Proto FqModel.Dump FqModel.C10Json FqModel.Ansi
 
@@ -703,6 +705,24 @@ def stepJson (mode : String) (text : List Char) (obs : String) : String :=
       if !(JV.beq (normalize v') (normalize v)) then s!"PROPFAIL output parses to a different value{div}"
       else if div.isEmpty then "OK" else s!"DIVERGE model={showText model}"
 
+def parseHexNat (s : String) : Option Nat :=
+  if s.isEmpty then none else
+  s.toList.foldlM (fun acc c => (FqModel.hexVal c).map (acc * 16 + ·)) 0
+
+/-- a float printed as JSON: every printed token must be a JSON number that READS BACK to the float
+    (`null` for NaN, ±MaxFloat64 for ±Inf: encoder.go:138-146).  No prediction of strconv's digits. -/
+def stepJsonFloat (bitsHex : String) (obs : String) : String :=
+  match parseHexNat bitsHex with
+  | none => "BADOP jsonf bits"
+  | some bits =>
+    if bits ≥ 2 ^ 64 then "BADOP jsonf bits" else
+    if obs.startsWith "err:" then s!"PROPFAIL the float was not printed: {obs}" else
+    let toks := obs.splitOn ","
+    if toks.isEmpty ∨ toks.any (·.isEmpty) then "BADOP jsonf observation" else
+    match toks.find? (fun t => !floatShownTrue bits t.toList) with
+    | none => "OK"
+    | some t => s!"PROPFAIL JSON number text does not read back to the value: {t} shown for the float {bitsHex}"
+
 def dropWord (cs : List Char) : List Char := (cs.dropWhile (· ≠ ' ')).drop 1
 
 def stepC10 (op obs : String) : String :=
@@ -738,6 +758,7 @@ def stepC10 (op obs : String) : String :=
   | "ntree" :: ws => stepNTree ws obs
   | "fsess" :: ws => stepFileSession ws obs
   | "json" :: mode :: _ => stepJson mode (dropWord (dropWord op.toList)) obs
+  | ["jsonf", _, bits, _] => stepJsonFloat bits obs
   | "jsonv" :: mode :: _ :: _ :: _ :: _ =>
     stepJson mode (dropWord (dropWord (dropWord (dropWord (dropWord op.toList))))) obs
   | _ => "BADOP op"
